@@ -595,7 +595,7 @@ def eval_redir_cases(ctx, cases, root, with_bash, sub="r"):
         if bsnl:
             flags.append(KF_BSNL)
         last = case["prog"][-1]
-        if len(last) > 4 and last[4] and (any(ch in "3456789" for ch in pm["spec_fds"]) or
+        if len(last) > 4 and last[4] and (any(ch in "3456789" for ch in pm["spec_fds"] + pm["model_fds"]) or
                                            any(n is not None and n >= 3 for n in (r[1] for r in last[1] if r[0] != "b"))):
             flags.append(KF_EXECCMD)      # `exec CMD` while a descriptor >= 3 is open for the command
         if flags:
